@@ -87,6 +87,7 @@ fn cmd_replay(a: &HashMap<String, String>) {
     let mut out = std::io::BufWriter::new(std::fs::File::create(util::arg_str(a, "out", "")).unwrap());
     let big = Big::new();
     let mut cache = FreshCache { huge: HashMap::new() };
+    let mut slot: Option<KEntry> = None;
     let mut determinism_checked: std::collections::HashSet<(String, String)> = Default::default();
     for b in behaviours {
         let cfg = b["cfg"].as_str().unwrap().to_string();
@@ -100,10 +101,29 @@ fn cmd_replay(a: &HashMap<String, String>) {
         let mut classes: Vec<&'static str> = Vec::new();
         let mut nlines: Vec<usize> = Vec::new();
         let mut nondeterministic: Vec<Value> = Vec::new();
+        // last EntryDimensions config handed to the long-lived formatter: (address, value)
+        let mut prev_edims: Option<(usize, &'static str)> = None;
+        let (mut edims_pairs, mut edims_pairs_same_addr) = (0u64, 0u64);
         for (i, kind) in kinds.iter().enumerate() {
             let salt = (i as u64) % 5 + if i >= 5 { 10 } else { 0 };
             let fault = faults.get(i).map(|x| x.as_str()).unwrap_or("none");
-            let e = KEntry::new(kind, salt, &big);
+            // every entry of a history is built into the SAME storage, after its predecessor was
+            // dropped: configs that live inside the entry (EntryDimensions) of consecutive entries
+            // then sit at the same address although their values differ
+            drop(slot.take());
+            slot = Some(KEntry::new(kind, salt, &big));
+            let e: &KEntry = slot.as_ref().unwrap();
+            if let Some((addr, val)) = e.entry_dimensions_config() {
+                if let Some((paddr, pval)) = prev_edims {
+                    if pval != val {
+                        edims_pairs += 1;
+                        if paddr == addr {
+                            edims_pairs_same_addr += 1;
+                        }
+                    }
+                }
+                prev_edims = Some((addr, val));
+            }
             let pos = long_lived.rng_pos();
             // what a freshly built formatter writes into a writer that never fails: the reference
             // when the call has no fault, and what places the fault otherwise
@@ -182,7 +202,8 @@ fn cmd_replay(a: &HashMap<String, String>) {
             }
         }
         let r = json!({"id": b["id"], "cfg": cfg, "n": kinds.len(), "mismatches": mismatches, "drift": drift,
-                       "classes": classes, "lines": nlines, "nondeterministic": nondeterministic});
+                       "classes": classes, "lines": nlines, "nondeterministic": nondeterministic,
+                       "edims_pairs": edims_pairs, "edims_pairs_same_addr": edims_pairs_same_addr});
         serde_json::to_writer(&mut out, &r).unwrap();
         out.write_all(b"\n").unwrap();
     }
